@@ -157,6 +157,9 @@ class Family:
         # file level
         ffind, fstats = self.file_level(tf, pts, tier)
         res.findings += ffind
+        lfind, lnote = self.locale_scenario()
+        res.findings += lfind
+        res.notes.append(lnote)
         res.evaluations = len(lines) + fstats["files"]
         res.distinct = nontriv
         res.traces = len(lines) if model is not None else 0
@@ -270,6 +273,54 @@ class Family:
             shutil.rmtree(d, ignore_errors=True)
         return findings, stats
 
+    def locale_scenario(self):
+        """a database opened with the default encoding in a process whose locale encoding is not UTF-8 (LC_ALL=C, UTF-8
+        mode off): every point an insert accepted — before and after a rewrite in the same session — comes back from a fresh
+        database object over the same file"""
+        import subprocess
+        import sys as _sys
+
+        script = r'''
+import os, sys, tempfile
+sys.path.insert(0, os.environ["VERIF_REPO_PATH"])
+import tinyflux as tf
+from datetime import datetime, timezone, timedelta
+d = tempfile.mkdtemp()
+path = os.path.join(d, "db.csv")
+db = tf.TinyFlux(path)
+t0 = datetime(2020, 1, 1, tzinfo=timezone.utc)
+accepted = []
+def put(i, text):
+    p = tf.Point(time=t0 + timedelta(seconds=i), measurement="m", tags={"name": text})
+    try:
+        db.insert(p); accepted.append(text)
+    except UnicodeError:
+        pass
+put(0, "plain"); put(1, "caf\u00e9"); put(2, "other")
+db.remove(tf.TagQuery().name == "other")
+put(3, "na\u00efve"); put(4, "plain2")
+db.update_all(tags={"seen": "1"})
+put(5, "\u00fcber")
+db.close()
+accepted = [a for a in accepted if a != "other"]
+try:
+    got = [p.tags["name"] for p in tf.TinyFlux(path).all(sorted=False)]
+except Exception as e:
+    got = "reopen raised " + type(e).__name__
+print(repr((accepted, got)))
+sys.exit(0 if got == accepted else 1)
+'''
+        env = dict(os.environ, LC_ALL="C", LANG="C", PYTHONUTF8="0", PYTHONCOERCECLOCALE="0", VERIF_REPO_PATH=C.REPO)
+        try:
+            pr = subprocess.run([_sys.executable, "-c", script], env=env, capture_output=True, text=True, timeout=120)
+        except Exception as e:
+            return [], f"locale scenario not run: {type(e).__name__}"
+        if pr.returncode == 0:
+            return [], "locale scenario: ok " + pr.stdout.strip()[:120]
+        return [Finding("impl-vs-spec", "default encoding under a non-UTF-8 locale (LC_ALL=C, UTF-8 mode off): accepted points vs "
+                        "what a fresh database reads back: " + (pr.stdout.strip() or pr.stderr.strip()[-300:])[:400],
+                        dict(family="c05-locale", observed=pr.stdout.strip()[:300], expected="accepted == read back"))], "locale scenario: FAILED"
+
     def replay_known(self, k):
         tf = C.import_tinyflux()
         w = k.get("witness")
@@ -319,6 +370,10 @@ def signature(pt):
 
 def replay(payload):
     tf = C.import_tinyflux()
+    if payload.get("family") == "c05-locale":
+        f, note = Family().locale_scenario()
+        print(f[0].summary if f else note)
+        return bool(f)
     if payload.get("family") == "c05-file":
         print("file-level round trip; see payload for the configuration and points")
         return True
